@@ -28,13 +28,22 @@ def check(chk, repo):
             raise AnalysisError(f"{cls}.fit: competition loops found in {names}")
         for k, comp in enumerate(comps):
             n += 1
-            check_fmin_clustering(rep, f"{cls[:3]}{k}:" if k else "", comp, field)
+            # candidate evaluations during k selection may be skipped (early stop); the final clustering may not
+            check_fmin_clustering(rep, f"{cls[:3]}{k}:" if k else "", comp, field, entry_check=(k == len(comps) - 1))
         run_kinds(rep, w)
         chk.note(f"{cls}.clustering_instances", len(comps))
     chk.floor("clustering loop instances reached from the two fit methods", n, 4)
+    from ..common import check_fresh_graph, check_model_premises
+    check_model_premises(rep, repo)
+    for cls2 in ("KNNSupervisedOPF", "UnsupervisedOPF"):
+        w2, comps2 = competitions_of(repo, cls2, "fit", 2)
+        check_fresh_graph(rep, w2, comps2[0].loop.first_seq, cls2[:3] + ":")
     w = model_walk(repo, "UnsupervisedOPF", "propagate_labels")
     check_propagate_labels(rep, w)
     run_kinds(rep, w)
+    # the forest lives on the k-NN graph of the selected k only: no arcs of an earlier build may survive
+    from .c12 import check_typestate
+    check_typestate(chk, rep, repo)
     from ..rules_heap import check_heap
     check_heap(rep, repo, "HEAP-")
     chk.undecided += [
